@@ -15,9 +15,11 @@ use serde_json::json;
 /// `n` sell orders of volume 1 queued at one price (clock advanced by `dt` before each), a few
 /// of them cancelled or reduced in place, optionally a snapshot reload, then one market order
 /// sweeps the level: it must execute against the surviving orders in queueing order.
-fn long_queue(n: usize, dt: u64, bid_side: bool, reload: bool) -> Result<u64, (String, String)> {
+fn long_queue(n: usize, dt: u64, bid_side: bool, reload: bool, sweep: u8, halt: bool) -> Result<u64, (String, String)> {
     let bad = |c: &str, d: String| Err((c.to_string(), d));
-    let mut b: OrderBook<3> = OrderBook::new(5, 1, true);
+    // (halt: the backlog is built while trading is disabled - on a book constructed that way -
+    // and trading is enabled just before the aggressor arrives)
+    let mut b: OrderBook<3> = OrderBook::new(5, 1, !halt);
     let price = 1000u32;
     let mut ids = Vec::with_capacity(n);
     for i in 0..n {
@@ -64,10 +66,44 @@ fn long_queue(n: usize, dt: u64, bid_side: bool, reload: bool) -> Result<u64, (S
     if let Err((c, d)) = m_views(&snap, 1, false) {
         return bad(&format!("views/{}", c), d);
     }
+    if halt {
+        if !b.get_trades().is_empty() {
+            return bad("trade-while-disabled", format!("{} trades were recorded while trading was disabled", b.get_trades().len()));
+        }
+        b.enable_trading();
+    }
+    let sweep_vol = total as u32 + 5;
+    // the aggressor: a market order, a limit order priced at the level, or a resting order of the
+    // other side re-priced onto the level with a larger volume (its remainder must rest there)
+    let mut aggressor = usize::MAX;
+    if sweep == 2 {
+        b.set_time(b.get_time() + 1);
+        aggressor = b.create_and_place_order(side_of(!bid_side), 1, 9, Some(if bid_side { price + 50 } else { price - 50 })).map_err(|_| ("placement-refused".to_string(), "aggressor".to_string()))?;
+    }
     let n0 = b.get_trades().len();
     b.set_time(b.get_time() + 1);
-    let sweep_vol = total as u32 + 5;
-    let _ = b.create_and_place_order(side_of(!bid_side), sweep_vol, 9, None);
+    match sweep {
+        0 => {
+            let _ = b.create_and_place_order(side_of(!bid_side), sweep_vol, 9, None);
+        }
+        1 => {
+            aggressor = b.create_and_place_order(side_of(!bid_side), sweep_vol, 9, Some(price)).map_err(|_| ("placement-refused".to_string(), "aggressor".to_string()))?;
+        }
+        _ => b.modify_order(aggressor, Some(price), Some(sweep_vol)),
+    }
+    if sweep > 0 {
+        // the remainder rests at the level's price on the other side; nothing is crossed
+        let s = Snap::take(&b);
+        if let Err((c, d)) = m_views(&s, 1, false) {
+            return bad(&format!("views-after-sweep/{}", c), d);
+        }
+        let o = b.order(aggressor);
+        let gone_vol: u64 = gone.iter().map(|g| 1 + (*g % 2) as u64).sum::<u64>() + 1;
+        let want = sweep_vol as u64 - (total - gone_vol);
+        if o.status != bourse_book::types::Status::Active || o.vol as u64 != want || o.price != price {
+            return bad("aggressor-remainder", format!("the aggressor should rest with volume {} at {}: {:?}", want, price, OrderRec::of(o)));
+        }
+    }
     let trades = &b.get_trades()[n0..];
     let expect: Vec<(usize, u32)> = (0..n).filter(|i| !gone.contains(i)).map(|i| (ids[i], if i == reduced { 1 } else { 1 + (i % 2) as u32 })).collect();
     if trades.len() != expect.len() {
@@ -85,28 +121,52 @@ fn long_queue(n: usize, dt: u64, bid_side: bool, reload: bool) -> Result<u64, (S
     if vol != 0 || best != (0, 0) {
         return bad("residue", format!("after the sweep the side still reports volume {} / touch {:?}", vol, best));
     }
+    let logged: u64 = trades.iter().map(|t| t.vol as u64).sum();
+    if b.get_trade_vol() as u64 != logged && sweep < 2 {
+        return bad("trade-volume-counter", format!("the sweep logged volume {} but the counter says {}", logged, b.get_trade_vol()));
+    }
     Ok(n as u64 + gone.len() as u64 + 3)
 }
 
 pub fn long_queues(out: &mut Outcome, ties: bool, thorough: bool) {
-    let sizes: &[usize] = if thorough { &[300, 4_097, 65_535, 65_536, 65_537, 70_000, 131_073] } else { &[300, 65_537, 70_000] };
+    long_queues_cfg(out, ties, thorough, false)
+}
+
+pub fn long_queues_cfg(out: &mut Outcome, ties: bool, thorough: bool, halt: bool) {
+    let sizes: &[usize] = if halt {
+        &[18, 300, 1_100, 4_100, 70_000]
+    } else if thorough {
+        &[18, 66, 300, 4_097, 4_100, 65_535, 65_536, 65_537, 70_000, 131_073]
+    } else {
+        &[18, 66, 300, 4_100, 65_537, 70_000]
+    };
     let mut ops = 0u64;
     let mut runs = 0u64;
-    for &n in sizes {
-        for bid in [false, true] {
-            for reload in [false, true] {
-                if reload && n > 70_000 {
-                    continue;
-                }
-                runs += 1;
+    let jobs: Vec<(usize, bool, bool, u8)> = sizes
+        .iter()
+        .flat_map(|&n| [false, true].into_iter().flat_map(move |bid| [false, true].into_iter().flat_map(move |reload| (0..3u8).map(move |sweep| (n, bid, reload, sweep)))))
+        .filter(|(n, _, reload, sweep)| !(*reload && *n > 70_000) && (*n <= 5_000 || *sweep == 0 || !*reload))
+        .collect();
+    let results: Vec<(usize, Result<Result<u64, (String, String)>, String>)> = std::thread::scope(|sc| {
+        let hs: Vec<_> = jobs
+            .iter()
+            .enumerate()
+            .map(|(i, &(n, bid, reload, sweep))| {
                 let dt = if ties { 0 } else { 1 };
-                let replay = json!({"engine": "bulk", "scenario": "long queue at one price", "orders": n, "clock_advance_between_placements": dt, "side": if bid { "bid" } else { "ask" }, "snapshot_reload_before_the_sweep": reload});
-                match util::subject(|| long_queue(n, dt, bid, reload)) {
-                    Ok(Ok(k)) => ops += k,
-                    Ok(Err((c, d))) => out.fail_other(&format!("bulk/long-queue/{}", c), d, replay),
-                    Err(m) => out.fail_other(&format!("bulk/long-queue/panic/{}", util::panic_sig(&m)), m, replay),
-                }
-            }
+                sc.spawn(move || (i, util::subject(|| long_queue(n, dt, bid, reload, sweep, halt))))
+            })
+            .collect();
+        hs.into_iter().map(|h| h.join().unwrap()).collect()
+    });
+    for (i, r) in results {
+        let (n, bid, reload, sweep) = jobs[i];
+        runs += 1;
+        let dt = if ties { 0 } else { 1 };
+        let replay = json!({"engine": "bulk", "scenario": "long queue at one price", "orders": n, "clock_advance_between_placements": dt, "side": if bid { "bid" } else { "ask" }, "snapshot_reload_before_the_sweep": reload, "aggressor": (["market order", "limit order at the level's price", "resting order re-priced onto the level"])[sweep as usize]});
+        match r {
+            Ok(Ok(k)) => ops += k,
+            Ok(Err((c, d))) => out.fail_other(&format!("bulk/long-queue/{}", c), d, replay),
+            Err(m) => out.fail_other(&format!("bulk/long-queue/panic/{}", util::panic_sig(&m)), m, replay),
         }
     }
     out.add_u64("states", runs);
@@ -114,8 +174,8 @@ pub fn long_queues(out: &mut Outcome, ties: bool, thorough: bool) {
     out.add_u64("traces_validated_against_impl", runs);
     out.push(
         "runs",
-        json!({"engine": "bulk (scripted long histories)", "label": if ties { "long queues at one price without advancing the clock" } else { "long queues at one price, clock advanced before every placement" },
-               "queue_lengths": sizes, "sides": ["ask", "bid"], "variants": ["sweep directly", "snapshot reload before the sweep"], "operations_executed": ops,
+        json!({"engine": "bulk (scripted long histories)", "label": if halt { "backlog queued at one price while trading is disabled, enabled, then swept" } else if ties { "long queues at one price without advancing the clock" } else { "long queues at one price, clock advanced before every placement" },
+               "queue_lengths": sizes, "sides": ["ask", "bid"], "variants": ["sweep directly", "snapshot reload before the sweep"], "aggressors": ["market order", "limit order at the level's price (remainder rests, nothing crossed)", "resting order re-priced onto the level"], "operations_executed": ops,
                "oracle": "level data = number/volume queued; cancels of the first, middle, 2^16-th and last-but-one order take effect; a pure reduction keeps the seat; the sweep executes the surviving orders in queueing order; views = recomputation from get_orders()"}),
     );
 }
@@ -199,5 +259,78 @@ pub fn periodic_staleness(out: &mut Outcome, thorough: bool) {
         "runs",
         json!({"engine": "bulk (scripted long histories)", "label": "one read, N mutations of one side without reading, a second read", "mutation_counts": periods, "sides": ["ask", "bid"], "levels": [3, 10],
                "operations_executed": ops, "oracle": "every view at the second read equals the recomputation from get_orders() (model-free)"}),
+    );
+}
+
+
+/// `n` distinct populated price levels per side (one or two orders each, different volumes), for
+/// several tick sizes and level counts: after every placement, and while the touch levels are
+/// cancelled away one by one (so that the published window slides over the whole ladder), every
+/// view must equal the recomputation from `get_orders()`.
+fn ladder<const L: usize>(n: u32, tick: u32) -> Result<u64, (String, String)> {
+    let mut b: OrderBook<L> = OrderBook::new(0, tick, true);
+    let centre = 1_000u32 * tick;
+    let mut t = 0u64;
+    let mut ops = 0u64;
+    let mut ids: Vec<(bool, usize)> = Vec::new();
+    let check = |b: &OrderBook<L>, what: &str| -> Result<(), (String, String)> {
+        let s = Snap::take(b);
+        m_views(&s, tick, false).map_err(|(c, d)| (format!("views/{}", c), format!("{} levels per side, tick {}, LEVELS {}, {}: {}", n, tick, L, what, d)))
+    };
+    for i in 0..n {
+        for bid in [true, false] {
+            let price = if bid { centre - (1 + i) * tick } else { centre + (1 + i) * tick };
+            for k in 0..(1 + (i + bid as u32) % 2) {
+                t += 1;
+                b.set_time(t);
+                let id = b.create_and_place_order(side_of(bid), 1 + (i * 3 + k) % 7, 7, Some(price)).map_err(|_| ("placement-refused".to_string(), format!("price {}", price)))?;
+                ids.push((bid, id));
+                ops += 1;
+            }
+            check(&b, &format!("after populating level {} of the {} side", i, if bid { "bid" } else { "ask" }))?;
+        }
+    }
+    // slide the window: cancel from the touch outwards
+    for (k, (bid, id)) in ids.iter().enumerate() {
+        t += 1;
+        b.set_time(t);
+        b.cancel_order(*id);
+        ops += 1;
+        if k % 3 == 0 || k + 40 > ids.len() {
+            check(&b, &format!("after cancelling {} orders from the touch outwards (last on the {} side)", k + 1, if *bid { "bid" } else { "ask" }))?;
+        }
+    }
+    Ok(ops)
+}
+
+pub fn deep_ladders(out: &mut Outcome, thorough: bool) {
+    let depths: &[u32] = if thorough { &[11, 12, 13, 32, 33, 34, 40, 64, 65, 70, 130, 260] } else { &[12, 33, 40, 70] };
+    let mut ops = 0u64;
+    let mut runs = 0u64;
+    for &n in depths {
+        for tick in [1u32, 2, 5, 10] {
+            for l in [3usize, 10, 24] {
+                runs += 1;
+                let r = util::subject(|| match l {
+                    3 => ladder::<3>(n, tick),
+                    10 => ladder::<10>(n, tick),
+                    _ => ladder::<24>(n, tick),
+                });
+                let replay = json!({"engine": "bulk", "scenario": "deep ladder", "populated_levels_per_side": n, "tick": tick, "levels": l});
+                match r {
+                    Ok(Ok(k)) => ops += k,
+                    Ok(Err((c, d))) => out.fail_other(&format!("bulk/deep-ladder/{}", c), d, replay),
+                    Err(m) => out.fail_other(&format!("bulk/deep-ladder/panic/{}", util::panic_sig(&m)), m, replay),
+                }
+            }
+        }
+    }
+    out.add_u64("states", runs);
+    out.add_u64("transitions", ops);
+    out.add_u64("traces_validated_against_impl", runs);
+    out.push(
+        "runs",
+        json!({"engine": "bulk (scripted long histories)", "label": "deep ladders: many distinct populated price levels per side", "populated_levels_per_side": depths, "ticks": [1, 2, 5, 10], "levels": [3, 10, 24],
+               "operations_executed": ops, "oracle": "every view equals the recomputation from get_orders() after every level is populated and while the window slides over the ladder (model-free)"}),
     );
 }
